@@ -377,6 +377,9 @@ func returnsOf(f *ssa.Function) []*ssa.Return {
 	var out []*ssa.Return
 	eachInstr(f, func(in ssa.Instruction) {
 		if r, ok := in.(*ssa.Return); ok {
+			if f.Recover != nil && r.Block() == f.Recover {
+				return // synthetic exit taken only after a recovered panic
+			}
 			out = append(out, r)
 		}
 	})
@@ -726,4 +729,20 @@ func declName(d ast.Decl) string {
 		}
 	}
 	return ""
+}
+
+// resolveRaw is resolve without stripping representation wrappers of the stored values (keeps MakeInterface).
+func resolveRaw(v ssa.Value) []ssa.Value {
+	addr := cellOf(v)
+	if addr == nil {
+		return []ssa.Value{v}
+	}
+	if _, isFree := addr.(*ssa.FreeVar); isFree {
+		return []ssa.Value{v}
+	}
+	vals, entry := reachingStores(addr, v.(ssa.Instruction))
+	if entry || len(vals) == 0 {
+		return []ssa.Value{v}
+	}
+	return vals
 }
